@@ -54,7 +54,9 @@ def main():
         })
         engines.setdefault(m.ENGINE, []).append(pid)
     eng_path = {'L0-meshsim': 'sim/meshsim.py', 'L0-quadsim': 'sim/quadsim.py',
-                'L1-sessions': 'sim/sessions.py', 'L2-driver': 'sim/driver.py'}
+                'L1-sessions': 'sim/sessions.py (+ sim/drivertrace.py, sim/simmp.py, sim/simdisk.py)',
+                'L1-estimsim': 'sim/estimsim.py (+ sim/refnum.py)', 'L1-hh2sim': 'sim/hh2sim.py',
+                'L2-driver': 'sim/orthosim.py + sim/driver.py'}
     man = {
         'version': 1,
         'setup_cmd': './check setup',
